@@ -195,7 +195,7 @@ Theorem run_dir_exact_gen q rec abs rel t S :
   rel_ok rel = true -> target_ok t = true -> tsources_ok S = true ->
   run_dir q rec abs rel t (render_sources S) = spec_dir rec rel t S.
 Proof.
-  intros Hcl Hn Hrel Ht HS. unfold run_dir, spec_dir. unfold rel_ok in Hrel. apply andb_true_iff in Hrel.
+  intros Hcl Hn Hrel Ht HS. unfold run_dir, spec_dir. rewrite seq_collect_recursive_spec. unfold rel_ok in Hrel. apply andb_true_iff in Hrel.
   destruct Hrel as [Hrc Hre]. apply negb_true_iff in Hre.
   rewrite walk_filter by exact Hre. rewrite filter_filter. apply filter_ext_in. intros p Hp.
   assert (Hpo : path_ok p = true).
@@ -203,6 +203,10 @@ Proof.
     destruct (all_files_shape _ _ _ _ Hp) as [below [Hb ->]]. destruct rel, below; try reflexivity. congruence. }
   rewrite (linted_exact_gen q abs S p Hcl (Hn p Hp) HS Hpo). rewrite spec_ok_unfold. now destruct (hard_ok p).
 Qed.
+
+(* the parallel entry point lints what the sequential one lints *)
+Lemma run_dir_par_eq q rec abs rel t s : run_dir_par q rec abs rel t s = run_dir q rec abs rel t s.
+Proof. unfold run_dir_par, run_dir. now rewrite seq_collect_recursive_spec, par_collect_recursive_spec. Qed.
 
 (* ------------------------------------------------------------------ corollary 1: all flags off, every input *)
 Definition flags_off (q : cquirks) : Prop :=
@@ -220,6 +224,11 @@ Theorem run_dir_exact q rec abs rel t S :
 Proof.
   intros Hq. apply run_dir_exact_gen; [now apply flags_off_clear|]. intros p _. left. apply Hq.
 Qed.
+
+Theorem run_dir_par_exact q rec abs rel t S :
+  flags_off q -> rel_ok rel = true -> target_ok t = true -> tsources_ok S = true ->
+  run_dir_par q rec abs rel t (render_sources S) = spec_dir rec rel t S.
+Proof. rewrite run_dir_par_eq. apply run_dir_exact. Qed.
 
 Theorem run_files_exact q abs S ps :
   flags_off q -> tsources_ok S = true -> forallb path_ok ps = true ->
